@@ -1,0 +1,14 @@
+//go:build verif
+
+package fcm
+
+// Contracts for the verification machinery in /verif (comment-only; build tag verif).
+
+// C13: building the payload of a push notification never panics, whatever the published content is - in particular
+// trimming the plain-text form to 128 characters slices only what is there (the senders run in goroutines that do not
+// recover: a panic here ends the server).
+//@ func payloadToData(pl *push.Payload) (data map[string]string, err error)
+//@   modifies inferred
+//@   ensures [C13] nil_payload_refused: pl == nil ==> err != nil
+//@   safe
+//@   nopanic
